@@ -32,6 +32,8 @@ EXPLANATION = (
     "operations on edits of nested document pairs x quiet/non-quiet, compared with the canonical driving order; "
     "printing with colour on/off.")
 OPS = ['b', 't', 'c', 'v', 'e', 'h']
+# 'D': the driving loop of TreeNode.diff() / get_all_edit_contexts(): tighten until is_complete(), then list the script
+DIFF_SEQS = ['D', 'tD', 'bD', 'Dt', 'DD', 'ttD', 'Db', 'eD', 'hD']
 PAIRS = [
     ([[3], [1, 2]], [[1], [1, 2], [[2], 3]]), ([[['ab'], [[1]]]], [[[[[3], [1, 2]]]], []]), ([[], {'b': {}}], [{'a': {}, 'b': 'ac'}]),
     ([1, 2, 3], [1, 5]), ({"a": [1, 2], "b": "x"}, {"a": [1, 3], "c": "y"}), ("abc", "abd"), ([["a", "b"], ["c"]], [["a"], ["b", "c"]]),
@@ -41,6 +43,8 @@ PAIRS = [
     ({"k1": "the quick brown fox", "k2": "jumps over", "k3": [1, 2, 3]}, {"j1": "lazy dog again?", "j2": "jumps over it", "j3": [1, 2]}),
     ({"a": "xxxxxxxx", "b": "yyyy", "c": [1]}, {"d": "yyyy", "e": "xxxxxxx", "f": [1, 2]}),
     ([{"p": "abc", "q": "de"}, {"r": 1}], [{"s": "abd", "t": "e"}, {"r": 2, "u": 3}]),
+    # a list whose last differing element is a mapping with unmatched keys (sub-edit still loose when the matrix completes)
+    ([[], {"a": "ab", "c": 1}], ["ab", {"bb": 1, "c": None}]), ([1, {"k": "xyz", "m": [1, 2]}], [{"j": "xyw", "m": [1, 3]}, 2]),
 ]
 
 
@@ -106,8 +110,16 @@ def _drive(job):
     try:
         _set_quiet(quiet)
         e = gt.build(a, opt).edits(gt.build(b, opt))
+        loose_listing = False
         for op in ops:
-            if op == 'b':
+            if op == 'D':
+                while e.valid and not e.is_complete() and e.tighten_bounds():
+                    pass
+                if isinstance(e, CompoundEdit):
+                    subs = list(e.edits())
+                    if type(e).__name__ == 'EditDistance' and any(not x.bounds().definitive() for x in subs):
+                        loose_listing = True
+            elif op == 'b':
                 e.bounds()
             elif op == 't':
                 e.tighten_bounds()
@@ -117,13 +129,16 @@ def _drive(job):
                 _ = e.valid
             elif op == 'e':
                 if isinstance(e, CompoundEdit):
-                    list(e.edits())
+                    subs = list(e.edits())
+                    if type(e).__name__ == 'EditDistance' and any(not x.bounds().definitive() for x in subs):
+                        loose_listing = True
             elif op == 'h':
                 e.has_non_zero_cost()
         got = _finish(e)
         if got[0] != ref[0]:
             fails.append({'what': f"final cost {got[0]} after operations {ops!r} (quiet={quiet}) differs from {ref[0]} "
-                                  f"[{a!r} -> {b!r}]", 'class': 'c05-cost-depends-on-order'})
+                                  f"[{a!r} -> {b!r}]",
+                          'class': 'c05-cost-depends-on-order' + (':editdistance-listed-before-subedits-definitive' if loose_listing else '')})
         elif got[1] != ref[1]:
             fails.append({'what': f"script after operations {ops!r} (quiet={quiet}) differs from the canonical one "
                                   f"[{a!r} -> {b!r}]: {got[1]!r} vs {ref[1]!r}", 'class': 'c05-script-depends-on-order'})
@@ -182,6 +197,9 @@ def bounded(tier, seed, repo_root):
     for (a, b) in PAIRS:
         for s in seqs + longer:
             jobs.append((a, b, gt.OPTION_COMBOS[rnd.randrange(9)], s, rnd.random() < 0.5))
+        for s in DIFF_SEQS:
+            for o in gt.OPTION_COMBOS:
+                jobs.append((a, b, o, s, False))
     res = pmap(_drive, jobs, repo_root, job_timeout=60, on_timeout=timeout_failure('C05'))
     fails = [f for fs in res for f in fs]
     from vlib import docs as D
@@ -192,7 +210,8 @@ def bounded(tier, seed, repo_root):
         fails.extend(fs)
     return [{
         'name': 'C05.interleavings', 'bound': f"{len(PAIRS)} nested document pairs x all operation sequences over {OPS} up to "
-        f"length {L} ({len(seqs)}) + {len(longer)} seeded longer ones, random option combination and quiet flag; "
+        f"length {L} ({len(seqs)}) + {len(longer)} seeded longer ones, random option combination and quiet flag, + the diff()-style "
+        f"driving loop (tighten until is_complete(), then list) in {len(DIFF_SEQS)} combinations x 9 options; "
         f"{len(pj)} pairs rendered under quiet x colour",
         'evaluations': len(jobs) + len(pj) * 4, 'distinct_nontrivial': len({(repr(j[0]), repr(j[1]), j[3]) for j in jobs if j[3]}),
         'exhaustive': False,
